@@ -70,6 +70,13 @@ CLAIMED.update({
     },
 })
 
+CLAIMED.update({
+    "C16": {
+        "text": "Depth-bounded exhaustive search (state-hash pruning) over upgrade / rollback histories starting from an established revision: package source edits, real package-manager reconciles (which activate and deactivate revisions), real revision reconciles in any order (real parser, linter, filesystem cache, APIEstablisher incl. its dry-run validation pass), garbage-collector runs and deletion of inactive revisions, with an API error at any call of a revision reconcile; five image variants (plain upgrade; an object controlled by another package's revision; an object the API server rejects; a foreign-controlled object; an uncontrolled pre-existing object). E1 all-or-nothing on establish failure, E2 only active revisions create / become controller (checked at every write), E3 deactivation drops control but keeps ownership, E4 established objects keep the package as non-controlling owner, E5 the garbage collector never deletes a CRD while its package exists.",
+        "technique": "explicit-state search over event sequences with the real reconcilers as transition function, plus API-fault enumeration",
+    },
+})
+
 PENDING_REASON = "not claimed yet: the check for this property is still being built (design in DESIGN.md section 3); no technique switch is intended"
 
 
